@@ -45,10 +45,12 @@ def files():
     m("Chat", P + ".ChatMessage", P + ".ChatMessage", client_streaming=True, server_streaming=True)
     m("DeleteThing", P + ".DeleteThingRequest", ".google.protobuf.Empty", http=("delete", "/v1/{name=shelves/*/things/*}"), signatures=["name"])
     m("GetPolicy", ".google.iam.v1.GetIamPolicyRequest", ".google.iam.v1.Policy", http=("get", "/v1/{resource=shelves/*}:getPolicy"))
+    # an rpc whose snake-case name is a Python keyword (the client defines `import_`)
+    m("Import", P + ".DeleteThingRequest", P + ".Thing", http=("post", "/v1/{name=shelves/*/things/*}:import"), body="*")
     return [fd]
 
 
-RPCS = ["GetThing", "ListThings", "StartThing", "WatchThings", "UploadThings", "Chat", "DeleteThing", "GetPolicy"]
+RPCS = ["GetThing", "ListThings", "StartThing", "WatchThings", "UploadThings", "Chat", "DeleteThing", "GetPolicy", "Import"]
 snake = lambda s: re.sub(r"(?<!^)(?=[A-Z])", "_", s).lower()
 
 
@@ -197,7 +199,10 @@ def scenarios():
                 try:
                     code = compile(text, path, "exec")
                 except SyntaxError as e:
-                    failures.append(dict(label, what="the sample does not compile", error=str(e)))
+                    f_ = dict(label, what="the sample does not compile", error=str(e))
+                    if rpc == "Import" and "client.import(" in text:
+                        f_["known"] = "keyword-rpc-name"
+                    failures.append(f_)
                     continue
                 # public generated types only
                 imports = re.findall(r"^(?:from (\S+) import (\S+)|import (\S+))", text, re.M)
